@@ -3,6 +3,7 @@ package workload
 import (
 	"encoding/base64"
 	"encoding/json"
+	"errors"
 	"strings"
 
 	"github.com/trustbloc/sidetree-core-go/pkg/api/operation"
@@ -231,6 +232,42 @@ func TamperHeader(compact string, hdr map[string]interface{}) string {
 	parts[0] = base64.RawURLEncoding.EncodeToString(hb)
 
 	return strings.Join(parts, ".")
+}
+
+// RespaceHeader re-serialises the protected header of a compact JWS with a blank after the first colon, keeping payload
+// and signature: the header still parses to the same members, but it is no longer the octet string that was signed.
+func RespaceHeader(compact string) string {
+	parts := strings.Split(compact, ".")
+	if len(parts) != 3 {
+		return compact
+	}
+
+	hb, err := base64.RawURLEncoding.DecodeString(parts[0])
+	if err != nil {
+		return compact
+	}
+
+	parts[0] = base64.RawURLEncoding.EncodeToString([]byte(strings.Replace(string(hb), `":`, `": `, 1)))
+
+	return strings.Join(parts, ".")
+}
+
+// ResignWithHeader signs the payload of a compact JWS anew under the given protected header octets (any member order or
+// spacing a signer may choose): a valid JWS over exactly what is transmitted.
+func ResignWithHeader(k *Key, compact string, header []byte) (string, error) {
+	parts := strings.Split(compact, ".")
+	if len(parts) != 3 {
+		return "", errors.New("not a compact JWS")
+	}
+
+	input := base64.RawURLEncoding.EncodeToString(header) + "." + parts[1]
+
+	sig, err := k.Signer.Sign([]byte(input))
+	if err != nil {
+		return "", err
+	}
+
+	return input + "." + base64.RawURLEncoding.EncodeToString(sig), nil
 }
 
 // ReplaceSignedData rebuilds a request (update/recover/deactivate) with another signedData string.
